@@ -9,7 +9,7 @@ from ..kinds import Lin, describe
 from ..loader import AnalysisError, World
 from ..mutate import edit_def, remove_stmt, replace_expr, replace_stmt
 from ..opkinds import all_mv
-from ..paths import exception_name, function_paths
+from ..paths import Path, exception_name, function_paths
 from ..rulesem import rule_info
 from ..run import Control
 from ..terms import facts as path_facts
@@ -110,6 +110,23 @@ def run(ctx, ck) -> None:
                     q = quantified(f[1], base)
                     if q and q[0] == 'any' and prop_equiv(q[1], mask_p):
                         some_mask = True
+        if none_os and not some_mask:
+            # or: an explicit loop over the entries that raises on the first boolean array
+            env_l: dict = {}
+            after_iter = None
+            conj = []
+            for ev in _p.events:
+                if ev[0] == 'iter' and ev[2] and term(ev[1].iter, env_l) in (IDXV, ('tuple', IDXV)):
+                    after_iter = ('elem', term(ev[1].iter, env_l))
+                    conj = []
+                elif ev[0] == 'cond' and after_iter is not None:
+                    t = term(ev[1], env_l)
+                    conj.append(t if ev[2] else ('unop', 'not', t))
+                env_l = path_env(Path([ev]), env_l)
+            if after_iter is not None and conj:
+                from ..terms import subst as _sb
+
+                some_mask = bool(prop_equiv(('and',) + tuple(conj) if len(conj) > 1 else conj[0], _sb(mask_p, {ELEM: after_iter})))
         mask_guard = mask_guard or (none_os and some_mask)
     ck.expect('X2', mask_guard, init, 'a boolean mask without explicit output structure is refused (its output shape is data dependent)', 'a boolean-mask index without output structure is no longer refused at construction', instance='mask needs structure')
     chk = index.own.get('_check_indices')
